@@ -330,6 +330,14 @@ func (its *PushPullHandler) processSubscribeOrCreate(code pushPullCase) errors.O
 		// Subscribe it again instead of treating its pre-subscription operations as pushes.
 		return its.subscribeDatatype()
 	}
+	if code == caseMatchKeyNotType {
+		// the key names a datatype of another type: it can be neither created nor subscribed
+		msg := fmt.Sprintf("%s is used by a datatype of type %s", its.Key, its.datatypeDoc.Type)
+		if its.gotOption.HasSubscribeBit() {
+			return errors.PushPullNoDatatypeToSubscribe.New(its.ctx.L(), msg)
+		}
+		return errors.PushPullDuplicateKey.New(its.ctx.L(), msg)
+	}
 	if its.gotOption.HasSubscribeBit() && its.gotOption.HasCreateBit() {
 		switch code {
 		case caseMatchNothing:
